@@ -294,9 +294,18 @@ func opCount(e influxql.Expr) int {
 // reporter wraps vf.Ctx with per-signature throttling (a worker keeps at most 50
 // violations; frequent known classes must not crowd out new ones).
 type reporter struct {
-	c     *vf.Ctx
-	seen  map[string]int
-	known int // violations that matched a known finding (parent / replay mode only)
+	c      *vf.Ctx
+	seen   map[string]int
+	known  int // violations that matched a known finding (parent / replay mode only)
+	panics []string
+}
+
+// notePanic keeps a few inputs on which the planner's own rewriting panicked (outside this
+// property: the query dies on the sql node before anything is shipped; reported as evidence).
+func (r *reporter) notePanic(where, text string, p any) {
+	if len(r.panics) < 3 {
+		r.panics = append(r.panics, fmt.Sprintf("%s panicked (%v) on: %s", where, p, clip(text)))
+	}
 }
 
 func (r *reporter) violation(sig, what string, w any) {
@@ -563,6 +572,7 @@ func (r *reporter) checkExprText(tc textCase, feats map[string]bool) {
 			cond, _, cerr = influxql.ConditionExpr(st2.Condition, &valuer)
 		}); p != nil {
 			c.Count("planner-panic:ConditionExpr", 1)
+			r.notePanic("ConditionExpr", tc.Text, p)
 			return
 		}
 		if cerr != nil {
@@ -580,6 +590,7 @@ func (r *reporter) checkExprText(tc textCase, feats map[string]bool) {
 			red = influxql.Reduce(st2.Fields[0].Expr, &valuer)
 		}); p != nil {
 			c.Count("planner-panic:Reduce", 1)
+			r.notePanic("Reduce", tc.Text, p)
 			return
 		}
 		if red != nil {
